@@ -19,7 +19,6 @@ tvars == <<l, cfg, ins, outs, st, done, bad, why, driftAt>>
 Dummy == [op |-> "distinct"]
 TInit == l = 1 /\ cfg = Dummy /\ ins = <<>> /\ outs = <<>> /\ st = <<>> /\ done = FALSE /\ bad = 0 /\ why = "" /\ driftAt = 0
 
-MsgBag(s) == LET RECURSIVE B(_) B(x) == IF x = <<>> THEN <<>> ELSE BagPut(B(Tail(x)), Head(x), 1) IN B(s)
 
 TNew == /\ l <= Len(Trace) /\ Trace[l].ev = "new"
         /\ cfg' = Trace[l].cfg /\ ins' = <<>> /\ outs' = <<>> /\ st' = OpInit(Trace[l].cfg) /\ done' = FALSE
